@@ -152,3 +152,42 @@ def correspondence_generated(ctx, n_cases, tag="gen"):
                 failing.append(c)
     ctx.traces += len(cases)
     return failing
+
+
+def correspondence_readout(ctx, n_cases, tag="ro"):
+    """Base/PhaseSpace.rcov / rmean (hand model of scovmatxp / smeanxp) against the implementation."""
+    rng = ctx.rng
+    cases = []
+    for _ in range(n_cases):
+        n = rng.randint(1, 4)
+        N, M, a = rand_state(rng, n, rng.random() < 0.5)
+        gm = GaussianModes(n)
+        gm.nmat = np.array(N, dtype=complex)
+        gm.mmat = np.array(M, dtype=complex)
+        gm.mean = np.array(a, dtype=complex)
+        cases.append((n, N, M, a, gm.scovmatxp().tolist(), gm.smeanxp().tolist()))
+    lines = ["From Coq Require Import List PrimFloat Bool.", "Import ListNotations.",
+             "From SFV Require Import Base.Num Base.FloatInst Base.PhaseSpace.",
+             "Definition idx (n : nat) := seq 0 n.",
+             "Definition flat_cov (n : nat) (s : st float) : list float :=",
+             "  flat_map (fun q1 => flat_map (fun a => flat_map (fun q2 => map (fun b => rcov NF s q1 q2 a b) (idx n)) [false; true]) (idx n)) [false; true].",
+             "Definition flat_mean (n : nat) (s : st float) : list float := flat_map (fun q => map (fun a => rmean NF s q a) (idx n)) [false; true].",
+             "Fixpoint all_close (l1 l2 : list float) : bool := match l1, l2 with [], [] => true | x :: t1, y :: t2 => fclose 0x1p-30%float x y && all_close t1 t2 | _, _ => false end.",
+             "Definition cases : list (nat * st float * list float * list float) := ["]
+    items = []
+    for n, N, M, a, cov, mean in cases:
+        flat = [x for row in cov for x in row]
+        items.append("(%d, %s, %s, %s)" % (n, st_term(n, N, M, a), coq.coq_list(flat, coq.coq_float), coq.coq_list(mean, coq.coq_float)))
+    lines.append(";\n".join(items) + "].")
+    lines.append("Eval vm_compute in map (fun c => match c with (n, s, cv, mn) => all_close (flat_cov n s) cv && all_close (flat_mean n s) mn end) cases.")
+    ok, vals, raw = ctx.coq_eval("cases_%s" % tag, "\n".join(lines))
+    if not ok:
+        ctx.obligation("correspondence:readout", False, raw)
+        return None
+    bad = []
+    for c, good in zip(cases, vals[0]):
+        ctx.case({"readout-n": c[0]}, nontrivial=c[0] >= 2, bucket="readout")
+        if not good:
+            bad.append(c)
+    ctx.traces += len(cases)
+    return bad
